@@ -15,14 +15,16 @@ THOROUGH_SEEDS = 3
 RULE = ("cases from props/C01.py gen(): vi/pe cases run ValueIteration/PolicyEvaluation on MDP::Model, "
         "MDP::SparseModel, a user-defined query-only model and a query-only view of MDP::Model built from the "
         "same tables (dyadic regime: bit-exact comparison with the extracted model; general regime: 1e-9 abs+rel); "
-        "solve cases cross-check VI / PolicyIteration / LinearProgramming by the Bellman residual; learn cases run VI on "
+        "solve cases cross-check VI / PolicyIteration / LinearProgramming by the Bellman residual; pi cases compare PolicyIteration "
+        "with the model; via cases start VI from a ValueFunction with a short action vector; learn cases run VI on "
         "MaximumLikelihoodModel. non-trivial = horizon > 0 and more than one state (solve: also more than one action); "
         "distinct by md5 of the case line")
 TRUSTED_BASE = [
     "IEEE doubles are modelled as exact rationals: agreement is bit-exact only inside the dyadic bit budget, 1e-9 abs+rel outside",
     "Eigen 3.4.0 kernels (matrix*vector, dot, maxCoeff first-index tie-break, sparse->dense conversion) modelled by their mathematical meaning",
     "lp_solve is not modelled; LinearProgramming results are checked by the exact Bellman residual of the returned values (1e-5 rel)",
-    "PolicyIteration's outer loop is not modelled; its returned Q is checked by the exact Bellman residual (gamma*tol)",
+    "PolicyIteration: outer loop modelled on explicit fuel (pi_run) and compared with the code on short tolerance-free evaluations; "
+    "for converged runs its returned Q is checked by the exact Bellman residual (gamma*tol + tie slack), proved only structurally (pi_fixpoint_partial)",
     "equalToleranceSmall is modelled as the rational 1/10^6 (the double 1e-6 differs by 4.5e-23)",
 ]
 ASSUMPTIONS = [
@@ -226,8 +228,55 @@ def gen_learn(rng):
     return " ".join(toks)
 
 
+def gen_via(rng):
+    """a vi.dy case with a start value function of the right size whose action vector is too short"""
+    while True:
+        c = gen_dy(rng, "vi").split()
+        S = int(c[2])
+        try: n = int(c[-(S + 1)]) if len(c) > S + 1 else -1
+        except ValueError: n = -1
+        # keep only cases that carry a start vector of size S (the last S+1 tokens are "S v0...")
+        if c[-1] != "0" and n == S and int(c[5]) > 0:
+            break
+    c[0] = "via"
+    c.append(str(rng.randrange(S)))
+    return " ".join(c)
+
+
+def gen_pi(rng):
+    """PolicyIteration with a short, tolerance-free evaluation (modified policy iteration): model vs code"""
+    if rng.random() < 0.7:
+        S = rng.choice([1, 2, 2, 3, 3]); A = rng.choice([1, 2, 2])
+        j = rng.choice([1, 1, 2]); D = 1 << j
+        gam_n, gam_d, bg = rng.choice([(1, 2, 1), (3, 4, 2)])
+        h = rng.choice([1, 1, 2, 3])
+        t = dy_rows(rng, S, A, j)
+        cls, r = dy_rewards(rng, S, A)
+        if cls == "ties" and A > 1:
+            for s in range(S):
+                t[s][1] = list(t[s][0]); r[s][1] = list(r[s][0])
+        toks = ["pi", "dy", str(S), str(A), q(gam_n, gam_d), str(h), "0", str(j + bg + 1)]
+        for s in range(S):
+            for a in range(A):
+                toks += [q(x, D) if x not in (0, D) else ("0" if x == 0 else "1") for x in t[s][a]]
+        for s in range(S):
+            for a in range(A):
+                toks += [str(x) for x in r[s][a]]
+        return " ".join(toks)
+    S = rng.choice([1, 2, 3]); A = rng.choice([1, 2, 3])
+    gamma = rng.choice([0.5, 0.75])
+    h = rng.choice([1, 2])
+    t = ge_rows(rng, S, A); r = ge_rewards(rng, S, A, allow_scale=False)
+    toks = ["pi", "ge", str(S), str(A), hx(gamma), str(h), "0", "0"]
+    for s in range(S):
+        for a in range(A): toks += [hx(x) for x in t[s][a]]
+    for s in range(S):
+        for a in range(A): toks += [hx(x) for x in r[s][a]]
+    return " ".join(toks)
+
+
 def gen(rng, tier):
-    n = {"quick": 420, "thorough": 2500, "search": 1200}[tier]
+    n = {"quick": 420, "thorough": 2200, "search": 1200}[tier]
     out = []
     for _ in range(n):
         u = rng.random()
@@ -235,6 +284,8 @@ def gen(rng, tier):
         elif u < 0.65: out.append(gen_dy(rng, "pe"))
         elif u < 0.78: out.append(gen_ge(rng, "vi"))
         elif u < 0.86: out.append(gen_ge(rng, "pe"))
-        elif u < 0.95: out.append(gen_solve(rng))
+        elif u < 0.92: out.append(gen_solve(rng))
+        elif u < 0.955: out.append(gen_pi(rng))
+        elif u < 0.965: out.append(gen_via(rng))
         else: out.append(gen_learn(rng))
     return out
